@@ -11,7 +11,7 @@ REG = {
     "C01": {
         "modules": ["VProofs.Props.C01", "VProofs.Props.Pandas"],
         "theorems": thms("C01", ["C01_detect", "C01_pandas", "C01_pandas_model"]) + ["V.Pd.built_typeset", "V.PandasProps.C01_pandas_built"],
-        "runners": ["pandas", "engine", "numpy", "list", "algebra"],
+        "runners": ["pandas", "engine", "numpy", "list", "algebra", "frame"],
         "relevant": ["contains", "detect"],
     },
     "C02": {
@@ -71,7 +71,8 @@ REG = {
         "modules": ["VProofs.Props.C07"],
         "theorems": thms("C07", ["C07_empty", "C07_native_integer", "C07_native_count", "C07_native_float",
                                  "C07_native_boolean", "C07_native_datetime", "C07_accepts_float_as_integer",
-                                 "C07_accepts_complex_as_float"]),
+                                 "C07_accepts_complex_as_float", "C07_accepts_string_ip", "C07_accepts_string_uuid",
+                                 "C07_accepts_string_email", "C07_accepts_string_geometry"]),
         "runners": ["family", "pandas", "numpy", "list"],
         "partial": "string encodings rest on the element parsers (data of the model); the full grid of families x encodings x null patterns is explored by the family runner on the real code",
     },
